@@ -41,6 +41,9 @@ def configs(tier, seed):
             out.append(dict(kind="history", K=K, F=F, cand=cand, matching=matching, reduction="max", window=2, thr=0.0))
             if tier == "thorough":
                 out.append(dict(kind="history", K=2, F=4, cand=cand, matching=matching, reduction="mean", window=3, thr=0.0))
+    for cand in ("fixed_window", "local_queues"):  # negative-distance scores (best value exactly 0)
+        for matching in ("hungarian", "greedy"):
+            out.append(dict(kind="history", K=2, F=3, cand=cand, matching=matching, reduction="max", window=2, thr=0.0, score_range="neg"))
     out.append(dict(kind="lemma", which="oks"))
     out.append(dict(kind="lemma", which="euclid"))
     out.append(dict(kind="lemma", which="iou"))
